@@ -17,8 +17,10 @@ public key, of the message and of the context reaches either a rejecting check o
   B3  message / context: the whole message (or its digest under the FIPS OID) and the whole context,
       preceded by its exact length byte and the mode byte, are absorbed into mu (C06 R1-R3, verify
       side), for every context length 0..255.
-Not decided: that each bit of a z field changes the decoded coefficient (bit-level injectivity of
-BitUnpack), and the hash argument itself.
+      Every bit of c-tilde and of every z field matters: sigEncode(sigDecode(s)) reproduces these
+      sections bit for bit (C08 R4), so two signatures differing there decode to different (c~, z);
+      likewise every bit of the public key changes the decoded (rho, t1).
+Not decided: the hash argument itself (a changed hash input changes the output).
 """
 import os
 import sys
@@ -48,7 +50,7 @@ def main(tier):
 
     sets = aicheck.sets_for(tier)
     all_sets = ["44", "65", "87"]
-    s8, n8 = c08.analyse(rep, ob, all_sets, rules=("R1", "R2"), prefix="B1:C08:", codecs=("sig", "pk"))
+    s8, n8 = c08.analyse(rep, ob, all_sets, rules=("R1", "R2", "R4"), prefix="B1:C08:", codecs=("sig", "pk"))
     s2, n2 = c02.analyse(rep, ob, sets, rules=("R1", "R2", "R3"), prefix="B1:C02:")
     s6 = c06.analyse(rep, ob, sets, prefix="B3:", sides=("verify",))
     # B2
@@ -106,7 +108,7 @@ def main(tier):
         "samples": samples + s8[:3] + s2[:2], "hint_classes": n8, "signature_classes": n2,
         "explanation": "every byte of signature / key / message / context is shown to reach a rejecting check or a hash input; bit-level injectivity of the z fields and the hash argument are not decided",
     }
-    return rep.finish("other", cov, ["hash collision resistance", "bit-level injectivity of BitUnpack not decided"])
+    return rep.finish("other", cov, ["hash collision resistance"])
 
 
 if __name__ == "__main__":
